@@ -204,6 +204,8 @@ func runC10(c *Ctx) {
 	c10ReflectValidity(c, scope)
 	c10NoReentry(c)
 	c10ParserPerConnection(c)
+	c10HeaderOptionalFields(c, scope)
+	reflectMapStoreRule(c, "C10-D11")
 
 	// ---------------------------------------------------------------- D2
 	c.Rule("C10-D2", "handlers see only well-formed input: after every decode(...) the number of values is compared with the number of declared parameters before a handler is invoked "+
@@ -416,28 +418,8 @@ func runC10(c *Ctx) {
 		c.Ob("C10-D5", "jsonparser.Parser.Add/attachment-not-parsed-as-header", fn.Pos(), !r3, "with a reconstructor retained the frame is parsed as a new header: "+trailString(p, t3))
 		r4, t4 := PrunedCanReach(fn, nil, []Assume{{`\(p\.r == nil\)`, false}, {`\(p\.r != nil\)`, true}}, nil, callPred(`\(\*jsonparser\.reconstructor\)\.addBuffer`))
 		c.Ob("C10-D5", "jsonparser.Parser.Add/attachment-added", fn.Pos(), !r4, "with a reconstructor retained a frame can be dropped without addBuffer: "+trailString(p, t4))
-		// the counter: stored only in Add's constructor literal and in addBuffer, where it goes down by one
-		rem := p.Field("jsonparser", "reconstructor", "remaining")
-		for _, f := range p.SrcFuncs() {
-			for _, fa := range FieldAccesses(f) {
-				if fa.Field != rem || !fa.Write {
-					continue
-				}
-				st, isSt := fa.Instr.(*ssa.Store)
-				if !isSt {
-					c.Ob("C10-D5", FuncName(f)+"/remaining-store", fa.Instr.Pos(), false, "the address of reconstructor.remaining escapes")
-					continue
-				}
-				okSite := false
-				switch FuncName(originOf(EnclosingTop(f))) {
-				case "(*jsonparser.Parser).Add":
-					okSite = strings.HasSuffix(Term(st.Val), ".Attachments")
-				case "(*jsonparser.reconstructor).addBuffer":
-					okSite = strings.HasSuffix(Term(st.Val), ".remaining - 1)")
-				}
-				c.Ob("C10-D5", FuncName(f)+"/remaining-store", fa.Instr.Pos(), okSite, "reconstructor.remaining is stored with "+Term(st.Val)+": it must start at header.Attachments and only go down by one per attachment")
-			}
-		}
+		// the count of attachments: complete exactly at the announced number (affine forms; shared with C09-D7)
+		attachmentCompletion(c, "C10-D5")
 	}
 
 	// ---------------------------------------------------------------- D6 hasError invariant
